@@ -62,7 +62,7 @@ m("write-error-ignored", ["C10"], I, "                    adapter.write(&res_buf
 m("response-buffer-not-cleared", ["C10", "C07"], I, "                    res_buf.clear();\n", "")
 m("process-returns-ok-on-empty-read", ["C10", "C05", "C07"], I,
   "            let read_end = read_offset + count;\n", "            if count == 0 {\n                return Ok(());\n            }\n            let read_end = read_offset + count;\n")
-m("terminator-search-from-back", ["C07", "C08", "C10"], I, "                .position(|b| *b == b'\\n')\n            {", "                .rposition(|b| *b == b'\\n')\n            {")
+m("terminator-search-from-back", ["C07", "C10"], I, "                .position(|b| *b == b'\\n')\n            {", "                .rposition(|b| *b == b'\\n')\n            {")
 m("compaction-off-by-one", ["C07"], I, "                cmd_buf.copy_within(proc_offset..read_end, 0);", "                cmd_buf.copy_within(proc_offset..read_end.saturating_sub(1).max(proc_offset), 0);")
 m("response-written-after-next-read", ["C10"], I,
   """                if !res_buf.is_empty() {
@@ -76,7 +76,7 @@ m("response-written-after-next-read", ["C10"], I,
                     res_buf.clear();
                 }
 """)
-m("path-kept-across-messages-in-process", ["C02", "C06", "C08"], I,
+m("path-kept-across-messages-in-process", ["C02", "C06"], I,
   "                    // Reset the header to the root node if a call is ended with a terminator.\n                    *header = self.root_node();",
   "                    // Reset the header to the root node if a call is ended with a terminator.\n                    if input.len() == i.len() { *header = self.root_node(); }")
 # --- run / execute
@@ -93,7 +93,7 @@ m("common-command-resets-path", ["C02"], I,
                     *header = self.root_node();
                 }
 """)
-m("execution-error-swallowed", ["C06", "C09"], I,
+m("execution-error-swallowed", ["C06"], I,
   "                    self.handle_error(error);\n                }\n\n                if call.terminated",
   "                    if error != Error::UnexpectedNumberOfParameters { self.handle_error(error); }\n                }\n\n                if call.terminated")
 m("execution-error-reported-twice", ["C06"], I,
